@@ -1,4 +1,4 @@
-"""C02 the compiled-statement cache is transparent (engine H over the stmtgen universe).
+"""C02 the compiled-statement cache is transparent (engine H over the stmtgen universe + the typed shapes of c02_types).
 
 Routes compared (the property names them): the same statement, freshly built,
 executed (1) on an engine created with ``query_cache_size=0``, (2) with the
@@ -12,6 +12,14 @@ included) plus the rows / ORM object dumps / error class.  Plus the implication
 "equal cache key => equal SQL, bind names, bind types, result-column types, and
 a compiled form populated by one statement hands out the *other* statement's
 parameter values" on five dialects.
+
+Typed shapes (``c02_types``): the stmtgen family only ever uses three fixed type objects, so the part of the cache
+key that comes from ``TypeEngine._static_cache_key`` (= the type's constructor arguments) was constant.  Four more
+shapes attach a type to an otherwise identical SELECT by CAST / type_coerce() / bound literal / ad-hoc column(), and
+the type varies over 10 classes (Numeric Float String Enum Boolean DateTime Interval LargeBinary, a user TypeDecorator and a
+user UserDefinedType with cache_ok=True) x each of its first two constructor arguments over {left out (None/default),
+falsy (0 / "" / False), truthy}.  All ordered pairs within such a shape go through the same explorer and oracle, and
+the whole product through the key-implication check on 5 dialects.
 
 Failing steps are minimised before they are reported (shortest history, plain dict cache if it suffices, every
 feature deviation reset to base while the same part of the observation keeps differing), so one root cause gives
@@ -29,6 +37,12 @@ tree gives only the reported known-finding signatures, each mutation adds new on
   M5b sql/elements.py    Label._cache_key_traversal: "name" dropped                       -> +32
   M6  sql/elements.py    _FrameClause._traverse_internals: "upper_bind" dropped           -> +4  (cached form hands the wrong ROWS/RANGE bound)
   M8  sql/elements.py    _compile_w_cache: bool(schema_translate_map) dropped from key    -> +2  (sel[exec_opt=schema_translate] vs sel[])
+  S1  sql/type_api.py    TypeEngine._static_cache_key: falsy constructor arguments dropped (seeded C02-a:
+      ``if self.__dict__.get(k)`` instead of ``is not None``)                              -> +60 or so, minimal ones:
+      "cached rows differ from uncached: exec tcast[a2=0] after [tcast[]] cache=dict" (Numeric(scale=0) served by Numeric()),
+      "equal cache key but different SQL: tcast[a1=10] vs tcast[a1=10,a2=0] on sqlite,postgresql,mysql,mssql,oracle"
+  S2  sql/sqltypes.py    Enum._static_cache_key override removed (= the tree before the Enum fix: key ignores values,
+      class, name, native_enum, validate_strings)                                         -> +7 (tbind/tcast/tcoerce/tcol[ty="Enum"...])
 Not effective (equivalent mutants, the key is redundant there): "path" dropped from _LoadElement._traverse_internals
 (Load.path still distinguishes), "name" dropped from Label._traverse_internals (Label has its own _cache_key_traversal).
 """
@@ -40,7 +54,7 @@ import warnings
 from sqlalchemy import util as sa_util
 from sqlalchemy.sql.elements import _anonymous_label
 
-from ..worlds import stmtgen as sg
+from . import c02_types as sg  # stmtgen + the "typed" shapes (same API, dispatching on the shape name)
 
 ID = "C02"
 LEVEL = "model_checking"
@@ -52,10 +66,13 @@ META = dict(
     level_text="Every statement of the stmtgen family (20 base shapes x feature table, all assignments within d feature "
     "deviations of the base: Core select/join/subquery/CTE/set-op/text/33 expression constructs/DML+RETURNING/upsert/"
     "executemany, statement-level params(), ORM entity selects with loader options and paths, legacy Query, "
-    "ORM-enabled DML) is executed after every history "
+    "ORM-enabled DML; plus 4 typed shapes: CAST / type_coerce / bound literal / column() of a type that varies over 10 "
+    "type classes x its first two constructor arguments over {left out, falsy, truthy}) is executed after every history "
     "of other family members on a shared cache whose state is restored exactly (public compiled_cache option): all "
-    "ordered pairs of the whole d=1 family (quick), plus all ordered pairs within a shape at d=2 and all triples within "
-    "a shape at d=1 (thorough), each also on a one-entry LRU with the first statement re-executed after eviction, plus "
+    "ordered pairs of the whole d=1 family and, within each typed shape, all ordered pairs (first statement with one "
+    "literal / bound value, second with the other) of the full type-argument product (quick), plus all ordered pairs "
+    "within a shape at d=2, all triples within a shape at d=1 and all ordered pairs of the full typed product incl. "
+    "both literals (thorough), each also on a one-entry LRU with the first statement re-executed after eviction, plus "
     "long rotated histories through the engine's own LRU (sizes 500 and 2). Each step's cursor-level observation must "
     "equal the one obtained with query_cache_size=0 and with compiled_cache=None. Every pair of family members with "
     "equal cache keys is compiled independently on 5 dialects and must agree in SQL, bind names/types/flags, "
@@ -63,7 +80,8 @@ META = dict(
     "parameters (before and after post-compile expansion).",
     level_note="Trusted: the harness (observation = before_cursor_execute log + row reprs + ORM __dict__ dumps). Rows "
     "are compared on SQLite only; the other dialects at compile/parameter level. Histories longer than 3 are covered "
-    "only by the rotated long histories, statements outside the feature table not at all.",
+    "only by the rotated long histories, statements outside the feature table not at all. Typed shapes: pairs only "
+    "within a shape, not mixed into the global family or the long histories.",
     rule="case = (history of statement ids, cache kind); state = (cache kind, statements that populated entries still "
     "present); transition = one execution, each compared with the uncached observation (trace validated); non-trivial "
     "= the step was served at least one cache hit from an entry populated by an earlier, separately built statement "
@@ -74,9 +92,11 @@ META = dict(
     ],
     bounds=dict(
         quick="family d=1, all ordered pairs (dict cache) + within a shape (s1,s2,s1) on a 1-entry LRU; 12 rotated long "
-        "histories x 2 passes on engine caches 500 and 2; key implication over all pairs of the d=2 family x 5 dialects",
+        "histories x 2 passes on engine caches 500 and 2; key implication over all pairs of the d=2 family x 5 dialects; "
+        "typed shapes: 4 shapes x 72 x 72 ordered pairs (dict cache) + key implication over the full product (144 per shape)",
         thorough="quick + family d=2 all ordered pairs within a shape (dict cache) + d=1 all triples within a shape; "
-        "key implication over all pairs of the d=3 family (sel: d=2) x 5 dialects",
+        "key implication over all pairs of the d=3 family (sel: d=2) x 5 dialects; typed shapes: 4 x 144 x 144 ordered "
+        "pairs (dict cache) each also as (s1,s2,s1) on a 1-entry LRU",
     ),
 )
 SHARD_TIMEOUT = dict(quick=300, thorough=2400)
@@ -133,6 +153,8 @@ class World:
 def _obs(engine, stmt, cache):
     built = sg.build_exec(*stmt)
     log, out = sg.observe(engine, built, cache)
+    if any("0x" in p for _, p, _ in log):  # repr of a memoryview parameter (LargeBinary) carries its address
+        log = [(s, _ADDR.sub("0x?", p), m) for s, p, m in log]
     return (tuple(log), _scrub(out))
 
 
@@ -299,6 +321,11 @@ def shards(tier, seed):
     for r in range(LONG_ROTATIONS):
         out.append(("long", 500, r))
         out.append(("long", 2, r))
+    tparts = 4 if tier == "quick" else 16
+    for sh in sg.TSHAPES:
+        for p in range(tparts):
+            out.append(("tpairs", sh, p, tparts))
+        out.append(("impl", sh, 1))  # a typed shape's family is its full product whatever d is
     if tier == "quick":
         for sh in sg.SHAPES:
             out.append(("impl", sh, 2))
@@ -329,11 +356,9 @@ def _step(rec, w, hist, stmt, cache, kind):
         report(rec, w, kind, hist + [stmt], got)
 
 
-def run_pairs(shard, tier, rec):
-    _, d, shape, part, parts = shard
-    w = World()
-    fam = sg.family(d, [shape] if shape else None)
-    firsts = [s for i, s in enumerate(fam) if i % parts == part]
+def _explore_pairs(rec, w, firsts, seconds, lru_too):
+    """every history (s1) and (s1, s2), s1 in firsts, s2 in seconds, on a plain dict cache restored exactly to the
+    state {s1}; where ``lru_too(s1, s2)``: also (s1, s2, s1) on a one-entry LRU.  Returns (#pairs, #lru histories)"""
     npairs = nlru = 0
     for s1 in firsts:
         id1 = sg.sid(*s1)
@@ -342,10 +367,8 @@ def run_pairs(shard, tier, rec):
         _step(rec, w, [], s1, cache, "dict")
         snap = list(cache.items())
         rec.state(("dict", id1))
-        lru = _lru(1)
-        _step(rec, w, [], s1, lru, "lru1")
-        lsnap = _items(lru)
-        for s2 in fam:
+        lsnap = None
+        for s2 in seconds:
             id2 = sg.sid(*s2)
             c2 = dict(snap)
             _step(rec, w, [s1], s2, c2, "dict")
@@ -361,17 +384,49 @@ def run_pairs(shard, tier, rec):
                         rec.sample(dict(history=[id1, id2], cache="dict", served_from_entry_of=id1, cursor=[list(x) for x in w.baseline(rec, s2)[0]][:2]))
             rec.state(("dict", id1, id2 if added else None, len(c2)))
             npairs += 1
-            if s1[0] != s2[0] or d > 1:
-                continue  # the eviction histories are run on the d=1 family, within a shape
-            # one-entry LRU, within a shape: s1, s2 (evicts s1's entry unless it hits), then s1 again
+            if not lru_too(s1, s2):
+                continue
+            # one-entry LRU: s1, s2 (evicts s1's entry unless it hits), then s1 again
+            if lsnap is None:
+                lru = _lru(1)
+                _step(rec, w, [], s1, lru, "lru1")
+                lsnap = _items(lru)
             l2 = _lru(1, lsnap)
             _step(rec, w, [s1], s2, l2, "lru1")
             _step(rec, w, [s1, s2], s1, l2, "lru1")
             rec.state(("lru1", id1, id2, len(l2)))
             rec.case(("lru1", id1, id2, id1), nontrivial=not hit)
             nlru += 1
+    return npairs, nlru
+
+
+def run_pairs(shard, tier, rec):
+    _, d, shape, part, parts = shard
+    w = World()
+    fam = sg.family(d, [shape] if shape else None)
+    firsts = [s for i, s in enumerate(fam) if i % parts == part]
+    # the eviction histories are run on the d=1 family, within a shape
+    npairs, nlru = _explore_pairs(rec, w, firsts, fam, lambda s1, s2: s1[0] == s2[0] and d == 1)
     rec.count("ordered_pairs_d%d%s" % (d, "_within_shape" if shape else ""), npairs)
     rec.count("lru1_histories_s1_s2_s1_within_shape", nlru)
+
+
+def run_tpairs(shard, tier, rec):
+    """the typed shapes (c02_types): same shape, the type's constructor arguments vary over {left out, falsy, truthy}.
+    quick: all ordered pairs (s1 with the first literal, s2 with the second literal: every hit has to hand over the
+    parameter values of s2) on a dict cache; thorough: all ordered pairs of the full product, plus the 1-entry LRU"""
+    _, shape, part, parts = shard
+    w = World()
+    fam = sg.family(1, [shape])
+    if tier == "quick":
+        firsts = [s for s in fam if s[1]["lit"] == sg.LITS[0]]
+        seconds = [s for s in fam if s[1]["lit"] == sg.LITS[1]]
+    else:
+        firsts = seconds = fam
+    firsts = [s for i, s in enumerate(firsts) if i % parts == part]
+    npairs, nlru = _explore_pairs(rec, w, firsts, seconds, lambda s1, s2: tier != "quick")
+    rec.count("ordered_pairs_typed_within_shape", npairs)
+    rec.count("lru1_histories_s1_s2_s1_typed", nlru)
 
 
 def run_triples(shard, tier, rec):
@@ -767,6 +822,8 @@ def run_shard(shard, tier, rec):
     kind = shard[0]
     if kind == "pairs":
         run_pairs(shard, tier, rec)
+    elif kind == "tpairs":
+        run_tpairs(shard, tier, rec)
     elif kind == "triples":
         run_triples(shard, tier, rec)
     elif kind == "long":
